@@ -130,13 +130,14 @@ template <> struct lift<std::complex<double>> {
         return C;
     }
 };
+// real blocks: |A_ij|_inf <= 0.7 |s_ij| and |A_ii^-1|_inf <= 1 / (0.75 |s_ii|), so a (weakly) dominant skeleton gives block diagonal dominance
 template <int N> struct lift<static_matrix<double, N, N>> {
     typedef static_matrix<double, N, N> Bk;
     static Csr<Bk> make(const Skel &s, Rng &r, std::string &kind) {
         const Csr<double> &A = s.A; Csr<Bk> C(A.n, A.m); C.ptr = A.ptr; C.col = A.col; C.val.resize(A.nnz()); kind = s.integer ? "integer-blocks" : "real-blocks";
         for (size_t i = 0; i < A.n; ++i) for (auto j = A.ptr[i]; j < A.ptr[i + 1]; ++j) { Bk b = math::zero<Bk>();
             if (A.col[j] == (ptrdiff_t)i) { for (int p = 0; p < N; ++p) for (int q = 0; q < N; ++q) b(p, q) = p == q ? A.val[j] : (s.integer ? (double)r.range(-1, 1) : A.val[j] * r.uni(-0.25, 0.25) / (N - 1)); }
-            else { bool any = false; for (int p = 0; p < N; ++p) for (int q = 0; q < N; ++q) { double cc = s.integer ? (double)r.range(-1, 1) : r.uni(-1, 1) / N; if (cc != 0) any = true; b(p, q) = A.val[j] * cc; } if (!any) b(0, 0) = A.val[j]; }
+            else { bool any = false; for (int p = 0; p < N; ++p) for (int q = 0; q < N; ++q) { double cc = s.integer ? (double)r.range(-1, 1) : 0.7 * r.uni(-1, 1) / N; if (cc != 0) any = true; b(p, q) = A.val[j] * cc; } if (!any) b(0, 0) = A.val[j]; }
             C.val[j] = b; }
         return C;
     }
